@@ -337,11 +337,6 @@ def run_case(spec, sub=None):
         if fam == "hyper":
             m = spec["name"]
             params = dict(spec["params"])
-            if m == "kahypar-agglom":
-                # its search space also offers the *compressed* sub-optimizer
-                # 'greedy-compressed', which is only specified for connected
-                # ordinary networks (C20): keep to the exact sub-optimizer
-                params["sub_optimize"] = "greedy"
             if spec["entry"] == "direct" or m == "kahypar-agglom":
                 fn = H._PATH_FNS[m]
                 return "tree", fn(inputs, output, sizes, **params, **H.get_hyper_constants()[m])
